@@ -51,6 +51,8 @@ pub enum Error {
     CantReadFromSocket,
     /// Peer doesn't take the data written to the socket.
     SocketWriteTimeout,
+    /// Commands broadcast by manager were lost, connection task was too slow.
+    ManagerCmdLost,
     /// Connection reset.
     ConnectionReset,
     /// Connection closed.
@@ -121,6 +123,7 @@ impl fmt::Display for Error {
             Error::SocketNotAvailable => write!(f, "Socket not available"),
             Error::CantReadFromSocket => write!(f, "Can't read from socket"),
             Error::SocketWriteTimeout => write!(f, "Socket write timeout"),
+            Error::ManagerCmdLost => write!(f, "Manager commands lost"),
             Error::InfoMissing => write!(f, "Info field missing"),
             Error::ConnectionReset => write!(f, "Connection reset by peer"),
             Error::ConnectionClosed => write!(f, "Connection closed by peer"),
